@@ -15,6 +15,70 @@ func mergeNoPanic(run *Runner) (err error, panicS string) {
 	return run.DB.Merge(), ""
 }
 
+// drainMergeReput empties one bucket key by key (every key that was ever put there is deleted, none that was not),
+// merges in the same process, and puts some of the same keys again - the state in which whatever the handle counts
+// per bucket (valid keys ...) has gone to zero and is no longer maintained the way it was before the Merge. The
+// caller reads afterwards. Returns false when the case should stop.
+func drainMergeReput(run *Runner, g *Gen, class string) bool {
+	c, u, r := run.C, run.U, g.R
+	b := u.Buckets[r.Intn(len(u.Buckets))]
+	var ops []Op
+	for _, k := range u.KVKeys {
+		if _, ever := run.M.KV[b][string(k)]; ever {
+			if it := run.M.KV[b][string(k)]; it.live() || r.Intn(2) == 0 {
+				ops = append(ops, Op{K: "Delete", B: b, Key: k})
+			}
+		}
+		if len(ops) == 4 {
+			run.Tx(TxSpec{Mode: "update", Ops: ops}, false)
+			ops = nil
+		}
+	}
+	if len(ops) > 0 {
+		run.Tx(TxSpec{Mode: "update", Ops: ops}, false)
+	}
+	if run.Dead || c.Violated() {
+		return false
+	}
+	for try := 0; try < 2; try++ {
+		if run.Files() < 2 {
+			break
+		}
+		c.Log("merge (%d files) with bucket %q drained", run.Files(), b)
+		merr, p := mergeNoPanic(run)
+		if p != "" {
+			c.Violate("panic:Merge:"+p, class, "Merge panicked: "+p)
+			return false
+		}
+		if merr == nil {
+			c.Stat("merges_succeeded", 1)
+			c.Stat("merges_over_a_drained_bucket", 1)
+		}
+		if !run.CheckObs("after-merge") {
+			return false
+		}
+		// the same keys again (no key the bucket has not seen before)
+		n := 0
+		for _, k := range u.KVKeys {
+			if _, ever := run.M.KV[b][string(k)]; ever && r.Intn(2) == 0 {
+				run.Tx(TxSpec{Mode: "update", Ops: []Op{{K: "Put", B: b, Key: k, Val: g.value(b, len(k))}}}, false)
+				n++
+			}
+		}
+		if run.Dead || c.Violated() || !run.CheckObs("after-merge-reput") {
+			return false
+		}
+		g.M = run.M
+		run.Tx(g.ReadTx(8), false)
+		run.Tx(TxSpec{Mode: "view", Ops: []Op{{K: "GetAll", B: b}, {K: "PrefixScan", B: b, Key: u.KVKeys[0][:1], I: 0, J: -1}, {K: "PrefixScan", B: b, Key: u.KVKeys[0][:1], I: 0, J: 3}}}, false)
+		if c.Violated() {
+			return false
+		}
+		// second round: merge again with the re-put keys live
+	}
+	return true
+}
+
 // runC15: sequential histories around Merge, one sub-class per structure kind so that the list finding
 // cannot hide a KV / set / sorted-set regression.
 func runC15(c *CaseCtx) {
@@ -174,7 +238,14 @@ func runC15(c *CaseCtx) {
 		// a single small write first: it still fits into whatever segment is the active one after the Merge
 		g.M = run.M
 		run.Tx(TxSpec{Mode: "update", Ops: []Op{{K: "Put", B: u.Buckets[0], Key: u.KVKeys[0], Val: []byte("w")}}}, false)
-		if !run.CheckObs("after-merge-write") || !run.Reopen() || !run.CheckObs("after-merge-write-reopen") {
+		if !run.CheckObs("after-merge-write") {
+			return
+		}
+		// more of the old keys, then a second Merge in the same process, then the reopen
+		if !drainMergeReput(run, g, class) {
+			return
+		}
+		if !run.Reopen() || !run.CheckObs("after-merge-write-reopen") {
 			return
 		}
 	}
